@@ -74,6 +74,7 @@ def main():
                 'byte arrays with embedded NULs; core domain and overflow band (lengths in [SIZE_MAX-64, SIZE_MAX-2]) kept apart; '
                 'distinct = distinct (domain, sequence number); every sequence compares model and DString after each operation')
     chk.assumptions = ['empty search string in replace_text_in_range is outside the domain (not generated)',
+                       'replace_text_in_range: an occurrence counts as inside the range when it *starts* inside it (the header says "inside the specified range" and no more; the model follows the implementation and the CuTest cases)',
                        'copy_substring / replace are not issued while the buffer holds embedded NULs (C-string semantics)']
     # witnesses of earlier findings: fixed seeds/sequences
     for e in chk.known.witnesses():
